@@ -70,7 +70,7 @@ def cmdModeWalk (j : Json) : R Json := do
     ("spec_model", Json.bool (specOf k)), ("spec_impl", specImpl),
     ("hit_end", Json.bool (decide (imax < k) || decide (n.length ≤ imax + k)))])
 
-def getOp (j : Json) : R (MCS.Op FB) := do
+private def getOp (j : Json) : R (MCS.Op FB) := do
   let a ← getArr j
   let tag ← getStr a[0]!
   let f (i : Nat) : R FB := do
